@@ -3,11 +3,13 @@ pub mod nio;
 pub mod qconc;
 pub mod queue;
 pub mod time;
+pub mod tlcache;
 
 pub static ALL: &[Comp] = &[
     Comp { name: "time", gen: time::gen, exec: time::exec, isolate_ms: 0 },
     Comp { name: "oq", gen: queue::gen_oq, exec: queue::exec_oq, isolate_ms: 1000 },
     Comp { name: "qconc", gen: qconc::gen, exec: qconc::exec, isolate_ms: 20000 },
     Comp { name: "nio", gen: nio::gen, exec: nio::exec, isolate_ms: 3000 },
+    Comp { name: "tlcache", gen: tlcache::gen, exec: tlcache::exec, isolate_ms: 5000 },
     Comp { name: "pq", gen: queue::gen_pq, exec: queue::exec_pq, isolate_ms: 1000 },
 ];
